@@ -89,6 +89,12 @@ func writeStream(w *iohelp.ErrorWriter, p string, v val.Value) {
 // writeSlice writes v through the byte-slice helper into an exact-width guarded buffer.
 func writeSlice(g *guardBuf, p string, v val.Value) []byte {
 	buf := g.place(make([]byte, primWidth(p, v)))
+	writeSliceInto(buf, p, v)
+	return append([]byte(nil), buf...)
+}
+
+// writeSliceInto writes v through the byte-slice helper into buf.
+func writeSliceInto(buf []byte, p string, v val.Value) {
 	switch p {
 	case "bool":
 		iohelp.WriteBoolBytes(buf, v.U != 0)
@@ -120,7 +126,52 @@ func writeSlice(g *guardBuf, p string, v val.Value) []byte {
 		iohelp.WriteUint32Bytes(buf, uint32(len(v.B)))
 		copy(buf[4:], v.B)
 	}
-	return append([]byte(nil), buf...)
+}
+
+// execShortView: the byte-slice helpers on a slice that is SHORTER than the value but has
+// spare capacity behind it (a view into a larger, used buffer: a pooled receive buffer cut
+// to what arrived, a slot of an arena). The capacity holds a complete encoding, so a helper
+// that looks beyond len returns "valid" data that is not in the buffer; a writer that does
+// so overwrites its neighbour. Unchecked helpers have to panic, checked ones to fail.
+func execShortView(n *Node, sc *Scenario) *Violation {
+	p := sc.Types[0]
+	v := sc.Values[0]
+	full := primEncode(p, v)
+	k := sc.Cut
+	if k >= len(full) {
+		k = len(full) - 1
+	}
+	if k < 0 {
+		return nil
+	}
+	const lead = 8
+	arena := make([]byte, lead+len(full)+16)
+	for i := range arena {
+		arena[i] = byte(taintLo + i%(taintHi-taintLo+1))
+	}
+	copy(arena[lead:], full)
+	view := arena[lead : lead+k : len(arena)]
+	var err error
+	cr := safeCall(1<<20, 1<<20, func() { _, err = readSlice(view, p) })
+	if !cr.Panicked && err == nil {
+		return &Violation{Class: "stale-data", Signature: "stale|short-view|read|" + p,
+			Detail: fmt.Sprintf("Read%sBytes on a %d-byte slice (value needs %d; capacity %d) returned a value and no error: it is made of bytes outside the slice", p, k, len(full), cap(view))}
+	}
+	if p == "string" {
+		return nil
+	}
+	for i := range arena {
+		arena[i] = byte(taintLo + i%(taintHi-taintLo+1))
+	}
+	want := append([]byte(nil), arena...)
+	safeCall(1<<20, 1<<20, func() { writeSliceInto(arena[lead:lead+k:len(arena)], p, v) })
+	for i := range arena {
+		if (i < lead || i >= lead+k) && arena[i] != want[i] {
+			return &Violation{Class: "outside-write", Signature: "outside-write|short-view|" + p,
+				Detail: fmt.Sprintf("Write%sBytes on a %d-byte slice (value needs %d) changed byte %+d relative to the slice: it wrote into its neighbour", p, k, len(full), i-lead)}
+		}
+	}
+	return nil
 }
 
 // readStream reads one primitive; the result is returned as a value tree.
@@ -463,6 +514,23 @@ func runC20(c *Ctx) *Replay {
 			}
 		}
 	}
+	// part 3c: short views with spare capacity, every primitive, every length below the width
+	for _, p := range schema.Primitives {
+		v := drawPrim(c.R, g, p, true)
+		w := primWidth(p, v)
+		for k := 0; k < w && k < 40; k++ {
+			sc := Scenario{Kind: "prims", Types: []string{p}, Values: []val.Value{v}, Cut: k, Extra: map[string]string{"probe": "shortview"}}
+			viol := execShortView(c.N, &sc)
+			c.Count("evaluations", 1)
+			c.Count("short_view_probe", 1)
+			c.State("c20v", p, fmt.Sprint(k))
+			if viol != nil {
+				if rp := c.shrinkAndReport(&sc, viol); rp != nil {
+					return rp
+				}
+			}
+		}
+	}
 	// part 4: hostile length prefixes on the checked string readers (never out of bounds)
 	for _, pfx := range []uint32{uint32(len(sv.B)) + 1, 1 << 16, 1<<31 - 1, 1 << 31, 0xFFFFFFF0, 0xFFFFFFFB, 0xFFFFFFFC, 0xFFFFFFFD, 0xFFFFFFFE, 0xFFFFFFFF} {
 		for _, shared := range []bool{false, true} {
@@ -519,6 +587,9 @@ func execPrims(n *Node, sc *Scenario) *Violation {
 			return &Violation{Class: "mismatch", Signature: "mismatch|stream-vs-slice|" + p, Detail: d}
 		}
 		return nil
+	}
+	if sc.Extra["probe"] == "shortview" {
+		return execShortView(n, sc)
 	}
 	if sc.Extra["probe"] == "hostileprefix" {
 		full := primEncode("string", sc.Values[0])
